@@ -8,9 +8,9 @@ import (
 	"github.com/bronlabs/bron-crypto/pkg/base/nt/num"
 	"github.com/bronlabs/bron-crypto/pkg/base/nt/znstar"
 	"github.com/bronlabs/bron-crypto/pkg/commitments/intcom"
-	"verif/harness/vlib"
 	"github.com/bronlabs/bron-crypto/pkg/key_agreement"
 	"github.com/bronlabs/bron-crypto/pkg/key_agreement/dh/dhc"
+	"verif/harness/vlib"
 	"verif/harness/vlib/lx"
 )
 
